@@ -10,7 +10,7 @@ def classify(inp, obs, tags):
 
 PROP = dict(
     engines=[dict(
-        name="crash", classify=classify,
+        name="crash", classify=classify, shrink="ops",
         quick=dict(cases=160, shards=8, profiles=["debug"], extra=["--images", "500"]),
         thorough=dict(cases=4000, shards=16, profiles=["debug"], extra=["--images", "3000"]),
     )],
